@@ -22,29 +22,31 @@ Theorem c16_unstuff_stuff : forall max b term rest,
 Proof. exact read_data_cmd_stuff. Qed.
 Print Assumptions c16_unstuff_stuff.
 
-(** (c) size limit: a body larger than the limit is refused ... *)
-Theorem c16_size_limit_refuses : forall max b term rest,
-  0 <= max -> len (concat b) > max ->
-  fst (read_data_lines max [] 0 (stuff b ++ term :: rest)) = DErrSize.
-Proof. intros. apply read_data_oversize; auto. Qed.
-Print Assumptions c16_size_limit_refuses.
+(** (b)(c) size limit, byte level: a body larger than the limit is refused,
+    and it is still read to its end: exactly [rest] is left in the reader, so
+    no line of an over-size body can reach the command loop *)
+Theorem c16_oversize_refused_and_drained : forall max b term rest,
+  Forall is_line b -> is_term term = true -> 0 <= max -> len (concat b) > max ->
+  read_data_cmd (concat (stuff b) ++ term ++ rest) max = (DErrSize, rest).
+Proof. exact read_data_cmd_oversize. Qed.
+Print Assumptions c16_oversize_refused_and_drained.
 
 (** ... and nothing larger than the limit is ever returned, for any stream *)
 Theorem c16_size_limit_any_stream : forall max ls d rest,
-  0 <= max -> read_data_lines max [] 0 ls = (DOk d, rest) -> len d <= max.
-Proof. intros max ls d rest H R. eapply read_data_within; [| |exact R]; auto. Qed.
+  0 <= max -> read_data_lines max d0 ls = (DOk d, rest) -> len d <= max.
+Proof. intros max ls d rest H R. eapply read_data_within; [|exact R]. intros _. split; [reflexivity|exact H]. Qed.
 Print Assumptions c16_size_limit_any_stream.
 
-(** (a)(c)(d)(e) on the reply trace: for EVERY stream of lines (pipelined or
-    not, RSET, repeated MAIL, case variants, ESMTP parameters, bodies of any
-    content) on which no finding class is hit, the replies pass the dialogue
-    checker: MAIL accepted only after LHLO and outside a transaction, RCPT only
-    inside one and below the recipient limit, DATA only with a recipient,
-    503/452 only when that is the case, and after 354 exactly one final reply
-    per accepted recipient in RCPT order, after which the transaction is over. *)
+(** (a)(c)(d)(e) on the reply trace, UNCONDITIONALLY: for EVERY stream of lines
+    (pipelined or not, RSET, repeated MAIL, null reverse-path, case variants,
+    ESMTP parameters, bodies of any content and size, messages the checks
+    refuse) the replies pass the dialogue checker: MAIL accepted only after
+    LHLO and outside a transaction, RCPT only inside one and below the
+    recipient limit, DATA only with a recipient, 503/452 only when that is the
+    case, and after 354 exactly one final reply per accepted recipient in RCPT
+    order, after which the transaction is over. *)
 Theorem c16_sequencing : forall accepts delivers c ls,
   cmd_lines_ascii accepts delivers c st0 MCmd ls = true ->
-  classify accepts delivers c ls = None ->
   dialog_ok (max_rcpts c) (fst (run accepts delivers c st0 MCmd ls)) = true.
 Proof. intros accepts delivers c ls _. apply dialog_ok_run. Qed.
 Print Assumptions c16_sequencing.
@@ -57,114 +59,64 @@ Theorem c16_rcpt_limit : forall accepts delivers c ls,
 Proof. intros. apply rcpts_bound; auto. Qed.
 Print Assumptions c16_rcpt_limit.
 
-(** (b)(d)(e) one DATA phase seen from the stream: in any state with a sender
-    and recipients, for every DATA line, every body [b] outside the finding
-    classes, either terminator and every continuation [rest]: the server
-    answers 354, then one reply per recipient in RCPT order, each about exactly
-    the octets of [b] (nothing altered), and then does exactly what a session
-    in the reset state does with [rest]: no line of [b] was executed as a
-    command and the session is ready for the next transaction. *)
+(** (b)(d)(e) one DATA phase seen from the stream, UNCONDITIONALLY: in any
+    state with an accepted MAIL and recipients, for every DATA line, EVERY
+    body [b] (any size, any content, accepted by the message checks or not),
+    either terminator and every continuation [rest]: the server answers 354,
+    then one reply per recipient in RCPT order - a delivery reply about exactly
+    the octets of [b], or a refusal (552 over the size limit, 554 refused by
+    the message checks) for that recipient - and then does exactly what a
+    session in the reset state does with [rest]: no line of [b] was executed
+    as a command and the session is ready for the next transaction. *)
 Theorem c16_replies_per_recipient : forall accepts delivers c s dl args b term rest,
   all_ascii dl = true ->
   parse_cmd dl = Some (S_ "DATA", args) ->
-  is_nil (mail_from s) = false -> rcpts s <> [] ->
+  mail_seen s = true -> rcpts s <> [] ->
   is_term term = true ->
-  classify_tx accepts c b = None ->
+  0 <= max_size c ->
   run accepts delivers c s MCmd (dl :: stuff b ++ term :: rest) =
   (let '(e, r) := run accepts delivers c (reset s) MCmd rest in
-   (Reply TData 354 [] :: deliveries delivers s (concat b) ++ e, r)).
+   (Reply TData 354 [] :: finals_of accepts delivers c s b ++ e, r)).
 Proof. intros accepts delivers c s dl args b term rest _. apply transaction. Qed.
 Print Assumptions c16_replies_per_recipient.
 
 Theorem c16_transaction_spec : forall accepts delivers c s dl args b term rest,
   all_ascii dl = true ->
   parse_cmd dl = Some (S_ "DATA", args) ->
-  is_nil (mail_from s) = false -> rcpts s <> [] ->
+  mail_seen s = true -> rcpts s <> [] ->
   is_term term = true ->
-  classify_tx accepts c b = None ->
+  0 <= max_size c ->
   tx_ok (concat b) (rcpts s) (fst (run accepts delivers c (reset s) MCmd rest))
         (fst (run accepts delivers c s MCmd (dl :: stuff b ++ term :: rest))) = true.
 Proof. intros accepts delivers c s dl args b term rest _. apply transaction_tx_ok. Qed.
 Print Assumptions c16_transaction_spec.
 
-(** ---- where raven violates the property: one witness per class ---- *)
 Definition yes : str -> bool := fun _ => true.
 Definition no : str -> bool := fun _ => false.
 Definition dl_ok : str -> str -> bool := fun _ _ => true.
 Definition L (s : string) : str := S_ s ++ crlf.
-Definition s3 : st := {| helo := S_ "x"; mail_from := S_ "a@example.com";
-                         rcpts := [S_ "u1@example.com"; S_ "u2@example.com"; S_ "u3@example.com"] |}.
-Definition s1 : st := {| helo := S_ "x"; mail_from := S_ "a@example.com"; rcpts := [S_ "u1@example.com"] |}.
 Definition c10 : cfg := {| max_size := 10; max_rcpts := 5 |}.
 
-(** over-size body: reading stops at the line that crosses the limit, one 554
-    is sent for three recipients and the rest of the body (RSET, the
-    terminator) is executed as commands *)
-Theorem c16_refuted_oversize_desync :
-  exists b rest,
-    classify_tx yes c10 b = Some OversizeDesync /\
-    tx_ok (concat b) (rcpts s3) (fst (run yes dl_ok c10 (reset s3) MCmd rest))
-          (fst (run yes dl_ok c10 s3 MCmd (L "DATA" :: stuff b ++ dot_crlf :: rest))) = false /\
-    fst (run yes dl_ok c10 s3 MCmd (L "DATA" :: stuff b ++ dot_crlf :: rest)) =
-      [Reply TData 354 []; Reply TDataErrSize 554 []; Reply TRset 250 []; Reply TUnknown 500 []; Reply TNoop 250 []].
-Proof. exists [L "0123456789ab"; L "RSET"], [L "NOOP"]. vm_compute. repeat split; reflexivity. Qed.
-Print Assumptions c16_refuted_oversize_desync.
-
-(** message refused by the message checks (e.g. no From header): one 554 for
-    three recipients ... *)
-Theorem c16_refuted_single_554 :
-  exists b rest,
-    classify_tx no c10 b = Some Single554 /\
-    tx_ok (concat b) (rcpts s3) (fst (run no dl_ok c10 (reset s3) MCmd rest))
-          (fst (run no dl_ok c10 s3 MCmd (L "DATA" :: stuff b ++ dot_crlf :: rest))) = false.
-Proof. exists [L "hello"], [L "NOOP"]. vm_compute. split; reflexivity. Qed.
-Print Assumptions c16_refuted_single_554.
-
-(** ... and even with one recipient the session is not ready for the next
-    transaction: sender and recipients are kept, the next MAIL gets 503 *)
-Theorem c16_refuted_single_554_not_reset :
-  exists b rest,
-    classify_tx no c10 b = Some Single554 /\
-    tx_ok (concat b) (rcpts s1) (fst (run no dl_ok c10 (reset s1) MCmd rest))
-          (fst (run no dl_ok c10 s1 MCmd (L "DATA" :: stuff b ++ dot_crlf :: rest))) = false /\
-    fst (run no dl_ok c10 s1 MCmd (L "DATA" :: stuff b ++ dot_crlf :: rest)) =
-      [Reply TData 354 []; Reply TDataErrMsg 554 []; Reply TMail 503 []].
-Proof. exists [L "hello"], [L "MAIL FROM:<b@example.com>"]. vm_compute. repeat split; reflexivity. Qed.
-Print Assumptions c16_refuted_single_554_not_reset.
-
-(** the same two classes seen by the dialogue checker on whole sessions *)
-Theorem c16_refuted_oversize_desync_dialog :
-  exists ls, classify yes dl_ok c10 ls = Some OversizeDesync /\
-             dialog_ok (max_rcpts c10) (fst (run yes dl_ok c10 st0 MCmd ls)) = false.
-Proof.
-  exists [L "LHLO x"; L "MAIL FROM:<a@example.com>"; L "RCPT TO:<u1@example.com>"; L "DATA";
-          L "0123456789ab"; L "RSET"; dot_crlf].
-  vm_compute. split; reflexivity.
-Qed.
-Print Assumptions c16_refuted_oversize_desync_dialog.
-
-Theorem c16_refuted_single_554_dialog :
-  exists ls, classify no dl_ok c10 ls = Some Single554 /\
-             dialog_ok (max_rcpts c10) (fst (run no dl_ok c10 st0 MCmd ls)) = false.
-Proof.
-  exists [L "LHLO x"; L "MAIL FROM:<a@example.com>"; L "RCPT TO:<u1@example.com>"; L "DATA";
-          L "hello"; dot_crlf].
-  vm_compute. split; reflexivity.
-Qed.
-Print Assumptions c16_refuted_single_554_dialog.
-
-(** null reverse-path: MAIL FROM:<> is answered 250 but leaves the session
-    outside a transaction: the following RCPT is refused with 503 *)
-Theorem c16_refuted_null_sender :
-  exists ls, classify yes dl_ok c10 ls = Some NullSender /\
-             dialog_ok (max_rcpts c10) (fst (run yes dl_ok c10 st0 MCmd ls)) = false /\
-             fst (run yes dl_ok c10 st0 MCmd ls) =
-               [Reply TLhlo 250 (S_ "x"); Reply TMail 250 []; Reply TRcpt 503 []].
-Proof.
-  exists [L "LHLO x"; L "MAIL FROM:<>"; L "RCPT TO:<u1@example.com>"].
-  vm_compute. repeat split; reflexivity.
-Qed.
-Print Assumptions c16_refuted_null_sender.
+(** ---- regression: what raven did before the three fixes ----
+    The replies the unrepaired server was observed to give (reply codes as
+    recorded in corpus/C16 in round 1) fail the executable stream spec; they
+    are literals, independent of the current model. *)
+Definition rp (code : N) : reply := (code, []).
+Example c16_old_oversize_desync_rejected :
+  stream_ok 5 [L "LHLO x"; L "MAIL FROM:<a@example.com>"; L "RCPT TO:<u1@example.com>"; L "DATA";
+               L "0123456789ab"; L "RSET"; dot_crlf; L "QUIT"]
+            (map rp [250; 250; 250; 354; 554; 250; 500; 221]%N) = false.
+Proof. vm_compute. reflexivity. Qed.
+Example c16_old_single_554_rejected :
+  stream_ok 5 [L "LHLO x"; L "MAIL FROM:<a@example.com>"; L "RCPT TO:<u1@example.com>";
+               L "RCPT TO:<u2@example.com>"; L "RCPT TO:<u3@example.com>"; L "DATA"; L "To: x@example.com";
+               L ""; L "body"; dot_crlf; L "MAIL FROM:<q@example.com>"; L "QUIT"]
+            (map rp [250; 250; 250; 250; 250; 354; 554; 503; 221]%N) = false.
+Proof. vm_compute. reflexivity. Qed.
+Example c16_old_null_sender_rejected :
+  stream_ok 5 [L "LHLO x"; L "MAIL FROM:<>"; L "RCPT TO:<u1@example.com>"; L "QUIT"]
+            (map rp [250; 250; 503; 221]%N) = false.
+Proof. vm_compute. reflexivity. Qed.
 
 (** ---- the hypotheses are satisfiable ---- *)
 Example c16_unstuff_example :
@@ -183,7 +135,6 @@ Example c16_session_example :
             [dot_crlf; L "MAIL FROM:<b@example.com>"; L "RCPT TO:<u1@example.com>"; L "DATA"] ++
             stuff body ++ [dot_lf; L "QUIT"; L "NOOP"] in
   cmd_lines_ascii yes dl_ok c st0 MCmd ls = true /\
-  classify yes dl_ok c ls = None /\
   dialog_ok (max_rcpts c) (fst (run yes dl_ok c st0 MCmd ls)) = true /\
   length (filter (fun e => match e with Deliver _ d _ => str_eqb d (concat body) | _ => false end)
                  (fst (run yes dl_ok c st0 MCmd ls))) = 3%nat /\
@@ -192,11 +143,13 @@ Proof. vm_compute. repeat split; reflexivity. Qed.
 
 (** the executable whole-session spec [stream_ok] (evaluated on the
     implementation's replies by the correspondence check) accepts the model's
-    own replies on that session and rejects them on the three witnesses *)
+    own replies, also on the three round-1 witnesses (over-size body,
+    refused message, null reverse-path), now handled in step *)
 Definition render (e : ev) : reply :=
   match e with
   | Reply _ code _ => (code, [])
   | Deliver r _ ok => ((if ok then 250 else 550)%N, S_ "to <" ++ r ++ S_ ">")
+  | Refuse r code => (code, S_ "for <" ++ r ++ S_ ">")
   end.
 Definition model_stream_ok (accepts : str -> bool) (c : cfg) (ls : list str) : bool :=
   stream_ok (max_rcpts c) ls (map render (fst (run accepts dl_ok c st0 MCmd ls))).
@@ -209,10 +162,12 @@ Example c16_stream_ok_examples :
                          [dot_crlf; L "MAIL FROM:<b@example.com>"; L "RCPT TO:<u1@example.com>"; L "DATA"] ++
                          stuff body ++ [dot_lf; L "QUIT"; L "NOOP"]) = true /\
   model_stream_ok yes c10 [L "LHLO x"; L "MAIL FROM:<a@example.com>"; L "RCPT TO:<u1@example.com>"; L "DATA";
-                           L "0123456789ab"; L "RSET"; dot_crlf] = false /\
+                           L "0123456789ab"; L "RSET"; dot_crlf; L "MAIL FROM:<b@example.com>"] = true /\
   model_stream_ok no c10 [L "LHLO x"; L "MAIL FROM:<a@example.com>"; L "RCPT TO:<u1@example.com>";
-                          L "RCPT TO:<u2@example.com>"; L "DATA"; L "hello"; dot_crlf] = false /\
-  model_stream_ok yes c10 [L "LHLO x"; L "MAIL FROM:<>"; L "RCPT TO:<u1@example.com>"] = false.
+                          L "RCPT TO:<u2@example.com>"; L "DATA"; L "hello"; dot_crlf; L "MAIL FROM:<b@example.com>"] = true /\
+  model_stream_ok yes c10 [L "LHLO x"; L "MAIL FROM:<>"; L "RCPT TO:<u1@example.com>"; L "MAIL FROM:<>"] = true /\
+  fst (run yes dl_ok c10 st0 MCmd [L "LHLO x"; L "MAIL FROM:<>"; L "RCPT TO:<u1@example.com>"; L "MAIL FROM:<>"])
+    = [Reply TLhlo 250 (S_ "x"); Reply TMail 250 []; Reply TRcpt 250 (S_ "u1@example.com"); Reply TMail 503 []].
 Proof. vm_compute. repeat split; reflexivity. Qed.
 
 (** Observation (not a listed finding, see NOTES/C16.md): [stuff] models a
